@@ -454,7 +454,8 @@ CHECKS = {
                        "pipe gives."),
         "level_note": ("Trusted: in-process peers, OpenSSH client, kernel pty/TCP. Wall clock with wide margins (a session that is not up in "
                        "15 s is infeasible). system-ssh-shell payloads are printable ASCII + LF without '~' (ssh escape character)."
-                       " Further flavours: ssh -s netconf through the system transport's (cooked) pty carries peer-to-client text compared modulo CR, plus the close-while-parked clause; the telnet peer starts sending either after or during the client's negotiation window. Missing bytes are reported after 5 s of silence from the local peer. In the end-to-end sub-check a login timeout of the external ssh client at Open is re-tried (3 attempts) before it counts."),
+                       " Further flavours: ssh -s netconf through the system transport's (cooked) pty carries peer-to-client text compared modulo CR, plus the close-while-parked clause; the telnet peer starts sending either after or during the client's negotiation window. Missing bytes are reported after 5 s of silence from the local peer. In the end-to-end sub-check a login timeout of the external ssh client at Open is re-tried (3 attempts) before it counts."
+                       ' An enumerated sub-check (big) sends one single 64 kB write per flavour, direction and read size (64, 8192).'),
         "technique": "property-based testing (rapid): seeded payload round trips over real transports with both-end verification; differential end-to-end vs ideal pipe",
         "rule": ("pipe: flavour x read size x 1-5 transfer steps (direction, size, chunking) x duplex x closer; e2e: flavour x history. "
                  "Non-trivial: every case (each includes close-while-parked; most include a payload larger than the read size). Distinct = sha1(case)."),
@@ -462,6 +463,7 @@ CHECKS = {
         "subs": [
             {"name": "pipe", "test": "TestPipe", "quick": 60, "thorough": 250, "shards": 16},
             {"name": "e2e", "test": "TestEndToEnd", "quick": 40, "thorough": 200, "shards": 16},
+            {"name": "big", "test": "TestBig", "quick": None, "thorough": None, "shards": 4, "enum": True},
         ],
     },
 }
